@@ -38,6 +38,17 @@ CHECKS = {
         "note": "the single bin at the edge of the zeroed region is unconstrained when the shift is within 1e-9 of a whole bin (float conversion of the Quantity)",
         "technique": "property-based testing: Hypothesis vs longdouble DFT oracle in the frequency domain; call-history variants",
     },
+    "C05": {
+        "text": "Generated baseband signals (N 8..512 not only 2^k, nchan 1..4, alignments, c8/c16, trailing dims), DMs of either sign over decades and "
+                "reference frequencies inside/at the edge of/outside the band: (1) chirp_function/chirp_from_signal against the analytic phase evaluated in "
+                "exact rationals and reduced mod 1; (2) the dedispersed samples, crop and start_time against IDFT(DFT(x) H_exact) with exact-rational "
+                "band-edge delays; (3) supplied chirp == internal chirp bit-for-bit; (4) DM then -DM on band-limited pulses vs the same two exact filter "
+                "steps. Exploration.",
+        "ref": "DESIGN.md section 4 C05",
+        "note": "|DM| is scaled so that |phase| + K DM |1/fref-1/f| <= 5e6 cycles (float64 cannot resolve the phase better beyond that); a crop bound within "
+                "float-evaluation error of a whole sample accepts either neighbour",
+        "technique": "property-based testing: Hypothesis vs exact-rational transfer function and DFT oracle; metamorphic round trip",
+    },
     "C18": {
         "text": "Generated-input search against an independent table of all 7-smooth numbers below 2^64: exhaustive for 0 <= N < 10^6 (10^7 thorough), "
                 "at s-1, s, s+1 and the midpoint for the 7-smooth s < 2^62 (all of them in the thorough tier), Hypothesis integers over [0, 2^62), and "
